@@ -1500,7 +1500,7 @@ func offersByID(st *vlib.Stream) map[int64]int {
 }
 
 func modeServer(r *vlib.Run) {
-	r.ForTrials("server", r.N(2000, 30000), func(trial int, rng *rand.Rand) {
+	r.ForTrials("server", r.N(1200, 30000), func(trial int, rng *rand.Rand) {
 		if serverStalled {
 			r.Inconclusive("server: trial skipped after a watchdog expiry earlier in this process")
 			return
